@@ -15,6 +15,7 @@
 import Cog.Front.JsonSchemaSoundMain
 import Cog.Sem.WidenChain
 import Cog.Sem.WidenPy
+import Cog.Sem.GoValidate
 namespace Cog.Front.JsonSchema
 open Cog.IR Cog.Sem Cog.Sem.Src Cog.Passes
 open NotRequiredFieldAsNullableType (vTy vFields fixField)
@@ -99,23 +100,23 @@ theorem fieldsBuilt_mem {pkg defs req} : ∀ {ps : List (String × JS)} {fs : Li
     | inl e => subst e; exact ⟨_, by simp, hx⟩
     | inr e => obtain ⟨f, hf, r⟩ := fieldsBuilt_mem rest e; exact ⟨f, List.mem_cons_of_mem _ hf, r⟩
 
-/-- THE FRONT-END KEEPS a typed scalar property: the struct the front-end declares for the object definition `root` has
+/-- THE FRONT-END KEEPS a typed scalar property: the struct the front-end declares for the object definition `name` (the root or any declared definition) has
     a field named like the property, required iff listed, whose type is `scalarOf` of the property's keywords -/
-theorem keeps_property (pkg : String) (defs : Defs) (fuel : Nat) (root : String) (S : Schemas)
-    (hS : frontEnd pkg defs fuel (refTo root) = .ok S)
-    {s : JS} (hroot : lookupDef defs root = some s) (hobj : isObjectNode s = true)
+theorem keeps_property (pkg : String) (defs : Defs) (fuel : Nat) (root name : String) (S : Schemas)
+    (hS : frontEnd pkg defs fuel (refTo root) = .ok S) (hdecl : (Schemas.locateObject S pkg name).isSome = true)
+    {s : JS} (hroot : lookupDef defs name = some s) (hobj : isObjectNode s = true)
     {p : String × JS} (hp : p ∈ propsOf s) {t : String} (hsc : scalarNode p.2 = some t) :
-    ∃ o fs f, Schemas.locateObject S pkg root = some o ∧ o.ty = .struct (sortFields fs) [] none m0 ∧
-      o.selfPkg = pkg ∧ o.selfName = root ∧ f ∈ fs ∧ f.name = p.1 ∧
+    ∃ o fs f, Schemas.locateObject S pkg name = some o ∧ o.ty = .struct (sortFields fs) [] none m0 ∧
+      o.selfPkg = pkg ∧ o.selfName = name ∧ f ∈ fs ∧ f.name = p.1 ∧
       f.required = s.attrs.required.contains p.1 ∧ f.ty = scalarOf p.2.attrs t ∧
       FieldsBuilt pkg defs s.attrs.required (propsOf s) fs := by
-  obtain ⟨W, hhas⟩ := frontEnd_spec pkg defs fuel root S hS
-  cases ho : Schemas.locateObject S pkg root with
-  | none => simp [ho] at hhas
+  obtain ⟨W, _⟩ := frontEnd_spec pkg defs fuel root S hS
+  cases ho : Schemas.locateObject S pkg name with
+  | none => simp [ho] at hdecl
   | some o =>
-    obtain ⟨js, h1, h2⟩ := W.obj root o ho
+    obtain ⟨js, h1, h2⟩ := W.obj name o ho
     rw [hroot] at h1; cases h1
-    obtain ⟨_, hsp, hsn⟩ := W.self root o ho
+    obtain ⟨_, hsp, hsn⟩ := W.self name o ho
     obtain ⟨a, oneOf, anyOf, allOf, props, addl, items, items2020⟩ := s
     obtain ⟨fs, hT, hbuilt⟩ := builds_object hobj h2
     obtain ⟨f, hf, hname, hreq, hbf⟩ := fieldsBuilt_mem hbuilt (p := p) hp
@@ -123,19 +124,25 @@ theorem keeps_property (pkg : String) (defs : Defs) (fuel : Nat) (root : String)
     obtain ⟨pa, po, pn, pl, pp, pad, pi, pi2⟩ := sk
     exact ⟨o, fs, f, rfl, hT, hsp, hsn, hf, hname, hreq, builds_scalar hsc hbf, hbuilt⟩
 
-/-- the object the front-end declares for an object definition: a struct whose fields are built property by property -/
-theorem keeps_object (pkg : String) (defs : Defs) (fuel : Nat) (root : String) (S : Schemas)
-    (hS : frontEnd pkg defs fuel (refTo root) = .ok S)
-    {s : JS} (hroot : lookupDef defs root = some s) (hobj : isObjectNode s = true) :
-    ∃ o fs, Schemas.locateObject S pkg root = some o ∧ o.ty = .struct (sortFields fs) [] none m0 ∧
-      o.selfPkg = pkg ∧ o.selfName = root ∧ FieldsBuilt pkg defs s.attrs.required (propsOf s) fs := by
-  obtain ⟨W, hhas⟩ := frontEnd_spec pkg defs fuel root S hS
-  cases ho : Schemas.locateObject S pkg root with
-  | none => simp [ho] at hhas
+/-- the root definition is declared -/
+theorem root_declared (pkg : String) (defs : Defs) (fuel : Nat) (root : String) (S : Schemas)
+    (hS : frontEnd pkg defs fuel (refTo root) = .ok S) : (Schemas.locateObject S pkg root).isSome = true :=
+  (frontEnd_spec pkg defs fuel root S hS).2
+
+/-- the object the front-end declares for an object definition `name` (the root, or any definition it reaches): a
+    struct whose fields are built property by property -/
+theorem keeps_object (pkg : String) (defs : Defs) (fuel : Nat) (root name : String) (S : Schemas)
+    (hS : frontEnd pkg defs fuel (refTo root) = .ok S) (hdecl : (Schemas.locateObject S pkg name).isSome = true)
+    {s : JS} (hroot : lookupDef defs name = some s) (hobj : isObjectNode s = true) :
+    ∃ o fs, Schemas.locateObject S pkg name = some o ∧ o.ty = .struct (sortFields fs) [] none m0 ∧
+      o.selfPkg = pkg ∧ o.selfName = name ∧ FieldsBuilt pkg defs s.attrs.required (propsOf s) fs := by
+  obtain ⟨W, _⟩ := frontEnd_spec pkg defs fuel root S hS
+  cases ho : Schemas.locateObject S pkg name with
+  | none => simp [ho] at hdecl
   | some o =>
-    obtain ⟨js, h1, h2⟩ := W.obj root o ho
+    obtain ⟨js, h1, h2⟩ := W.obj name o ho
     rw [hroot] at h1; cases h1
-    obtain ⟨_, hsp, hsn⟩ := W.self root o ho
+    obtain ⟨_, hsp, hsn⟩ := W.self name o ho
     obtain ⟨a, oneOf, anyOf, allOf, props, addl, items, items2020⟩ := s
     obtain ⟨fs, hT, hbuilt⟩ := builds_object hobj h2
     exact ⟨o, fs, rfl, hT, hsp, hsn, hbuilt⟩
@@ -178,6 +185,49 @@ theorem scalarOf_eq (a : JAttrs) (t : String) :
       · by_cases h4 : t = "integer"
         · subst h4; simp [walkNumber]
         · simp [h1, h2, h3, h4, walkNumber]
+
+/-! ### the constraint keywords on DOCUMENTS (`jsValid` restricted to them), as violations with paths -/
+
+/-- value × 4 of a bound, when that is an integer -/
+def boundQuarters (b : Bound) : Option Int :=
+  if b.den ≠ 0 ∧ (4 * b.num) % (b.den : Int) = 0 then some (4 * b.num / (b.den : Int)) else none
+
+def numViol (cons : String) (bad : Int → Int → Bool) (q : Int) : Option Bound → Option (List Viol)
+  | none => some []
+  | some b =>
+    match boundQuarters b with
+    | some bq => some (if bad q bq then [{ path := [], op := cons, cons := cons, bound := bq }] else [])
+    | none => none
+
+/-- the violated constraint keywords of a typed scalar schema on a member value, in the order of generator.go;
+    `none`: a bound that is not a multiple of 0.25 (outside the number model) -/
+def kwViolations (a : JAttrs) (t : String) (w : Json) : Option (List Viol) :=
+  match w with
+  | .str s =>
+    if t = "string" then
+      some ((if a.minLength ≠ -1 ∧ (s.length : Int) < a.minLength then [{ path := [], op := ">=", cons := "minLength", bound := a.minLength * 4 }] else []) ++
+            (if a.maxLength ≠ -1 ∧ a.maxLength < (s.length : Int) then [{ path := [], op := "<=", cons := "maxLength", bound := a.maxLength * 4 }] else []))
+    else some []
+  | .num q =>
+    if t = "number" ∨ t = "integer" then
+      match numViol ">=" (fun q b => decide (q < b)) q a.minimum, numViol ">" (fun q b => decide (q ≤ b)) q a.exclMinimum,
+            numViol "<=" (fun q b => decide (b < q)) q a.maximum, numViol "<" (fun q b => decide (b ≤ q)) q a.exclMaximum with
+      | some l1, some l2, some l3, some l4 => some (l1 ++ l2 ++ l3 ++ l4)
+      | _, _, _, _ => none
+    else some []
+  | _ => some []
+
+/-- the violations of the constraint keywords of a flat object definition in a document: per property (in key order) the
+    violated keywords of the member, at the path of the member; absent and `null` members violate nothing -/
+def jsViolations (s : JS) (j : Json) : Option (List Viol) :=
+  match j with
+  | .obj ms =>
+    (propsOf s).foldr (fun p acc =>
+      match acc, scalarNode p.2, Json.lookup p.1 ms with
+      | some rest, some t, some w => (kwViolations p.2.attrs t w).map fun l => preAll (.fld p.1) l ++ rest
+      | some rest, _, _ => some rest
+      | none, _, _ => none) (some [])
+  | _ => some []
 
 /-! ### the Go chain on `Plain` front-end output -/
 
